@@ -17,7 +17,8 @@ CHECKS = {
           "plus who-may-touch slot payload/reset/tickets, the version constants, the compensating batch waiting on every slot of its range, and a "
           "batch split at the ring end continuing only after its first piece was handled completely. These are necessary conditions for 'consumer sees "
           "every producer write' and 'exclusive access'; weakened orders, dropped fences, hoisted stores and ignored CAS results are "
-          "invisible to the x86 test-suite but are local shape changes seen on every path. FIFO/multiset/try_-failure clauses are not decided. Also: a change of the ring geometry (reserve_and_clear writing _slot_bits) re-bases both ticket counters on every path (R11). Also: versions are 16 bits wide wherever they are produced or compared (R6d).",
+          "invisible to the x86 test-suite but are local shape changes seen on every path. FIFO/multiset/try_-failure clauses are not decided. Also: a change of the ring geometry (reserve_and_clear writing _slot_bits) re-bases both ticket counters on every path (R11). Also: versions are 16 bits wide wherever they are produced or compared (R6d)."
+          ' Also: the overloads without template flags forward CONCURRENT=true and flagged overloads hand their own value down (R12).',
   "note": "Trusted: clang 14 CFG of the host preprocessor branch; C++ memory-model reasoning that acquire-observation + release-advance on "
           "one word is the publication protocol; client callbacks opaque.",
   "technique": "static analysis: path/dominance rules over inlined CFG facts of template instantiations (custom libTooling extractor)"},
@@ -28,7 +29,8 @@ CHECKS = {
           "re-loads behind a seq_cst fence on every path from the 16-bit stores with the 2^16 threshold, every USE_FUTEX_WAKE=true "
           "public entry reaches a waiter check after each version store on all paths, and the timed exclusive pop only waits with the "
           "caller's deadline. Each is a necessary condition: breaking it yields a 3-step window with a sleeper never woken, which the "
-          "100 ms-sleep tests cannot hit. Global deadlock freedom and kernel futex behaviour are not decided. Also: no path from the futex wait back to itself avoids the recomputation of the remaining time (R5e). Also: the flag-less clear() moves slots through a waking operation (R4f).",
+          "100 ms-sleep tests cannot hit. Global deadlock freedom and kernel futex behaviour are not decided. Also: no path from the futex wait back to itself avoids the recomputation of the remaining time (R5e). Also: the flag-less clear() moves slots through a waking operation (R4f)."
+          ' Also: the overloads without template flags forward USE_FUTEX_WAIT / USE_FUTEX_WAKE = true and flagged overloads hand their own values down (R4g).',
   "note": "Trusted: kernel futex compare-and-block semantics; clang 14 CFG; x86-64 branch of the sources.",
   "technique": "static analysis: edge-guard / must-pass-through / provenance rules over inlined CFG facts (custom libTooling extractor)"},
  "C04": {
@@ -62,7 +64,8 @@ CHECKS = {
           "lowest_epoch <= low_water_mark(), the reclaimed count is incremented exactly once per invocation and is what advances the cursor, "
           "stop() pushes the default (UINT64_MAX) marker before join under joinable(), the destructor stops, retire stamps a fresh tick, "
           "and the queue flag pairing / single-consumer precondition of the non-concurrent pop. The tests only stop an already idle "
-          "collector, so the batch-shared-with-marker path is never staged. Which regions are open (Epoch) is C09; schedule-level exactly-once is not decided. Also: every popped task that is not the stop marker is appended to the batch (R3g). The queue re-size clause C01.R11 is evaluated on this component's queue instantiation (Q1).",
+          "collector, so the batch-shared-with-marker path is never staged. Which regions are open (Epoch) is C09; schedule-level exactly-once is not decided. Also: every popped task that is not the stop marker is appended to the batch (R3g). The queue re-size clause C01.R11 is evaluated on this component's queue instantiation (Q1)."
+          " Dependent clauses: the rules of the lower components (C01, C02, C09) are re-evaluated on the function instances this component's own code reaches through resolved calls and reported as '<id>.D:<lower rule>' (DESIGN.md section 3, D1).",
   "note": "Trusted: clang 14 CFG; std::thread/std::vector are opaque; the bounded queue (C01/C02) delivers what was pushed.",
   "technique": "static analysis: must-pass-through (typestate of the task buffer), edge-guard and counting rules over CFG facts; who-may-call pairing"},
  "C09": {
@@ -72,7 +75,8 @@ CHECKS = {
           "by all ids ever allocated (IdAllocator::end / ThreadId::end) and keeps the minimum starting from UINT64_MAX; leaving "
           "release-stores UINT64_MAX only on the outermost exit with a balanced nesting counter; Accessor is move-only, swaps both "
           "fields and unregisters at most once. A weakened fence or order never shows in sequentially consistent test interleavings on "
-          "x86. The sufficiency of these orders (the Dekker argument) and the non-x86 branch of tick() are not decided. Also: the scan bound is the instance's own accessor count whenever non-zero; the process-wide thread count is used only on the ==0 edge (R3e). Also: lock/unlock work on the caller's own slot, which lock ensures first; create_accessor ensures the slot it hands out (R6). Also: every write of the scan callback to the captured result folds (the callback runs once per block) (R3f).",
+          "x86. The sufficiency of these orders (the Dekker argument) and the non-x86 branch of tick() are not decided. Also: the scan bound is the instance's own accessor count whenever non-zero; the process-wide thread count is used only on the ==0 edge (R3e). Also: lock/unlock work on the caller's own slot, which lock ensures first; create_accessor ensures the slot it hands out (R6). Also: every write of the scan callback to the captured result folds (the callback runs once per block) (R3f)."
+          " Dependent clauses: the rules of the lower components (C04, C14) are re-evaluated on the function instances this component's own code reaches through resolved calls and reported as '<id>.D:<lower rule>' (DESIGN.md section 3, D1).",
   "note": "Trusted: C++ memory model reasoning about seq_cst fences; host preprocessor branch (#if __x86_64__) only.",
   "technique": "static analysis: memory-order, fence post-dominance, edge-guard and provenance rules over CFG facts"},
  "C14": {
@@ -84,7 +88,8 @@ CHECKS = {
           "id.version -> different value), emplace stamps the slot with the allocated version before the id leaves; finish_released only "
           "from holders of a successful take, Accessor moves keep one finisher; a thread id is allocated in the constructor and the same "
           "value returned in the destructor. An ABA or stale-version match needs a precise three-thread interleaving and is silent. "
-          "Uniqueness over all interleavings is not decided. Also: IdAllocator::for_each closes a reported run, flushes the trailing run, finds run boundaries with ACTIVE_FLAG and advances pointer and id together (R6). Also: value, bound and live-id enumeration of one thread-id flavour use the same allocator instance (R5c).",
+          "Uniqueness over all interleavings is not decided. Also: IdAllocator::for_each closes a reported run, flushes the trailing run, finds run boundaries with ACTIVE_FLAG and advances pointer and id together (R6). Also: value, bound and live-id enumeration of one thread-id flavour use the same allocator instance (R5c)."
+          " The thread-id destructor returns its value on every live path of every flavour (R5b; the dead arm of an if on a template flag is not a path). Dependent clauses: the rules of the lower components (C04) are re-evaluated on the function instances this component's own code reaches through resolved calls and reported as '<id>.D:<lower rule>' (DESIGN.md section 3, D1).",
   "note": "Trusted: clang 14 CFG; 64-bit lock-free atomics on VersionedValue (asserted by the platform, not by this check).",
   "technique": "static analysis: provenance (desired value derives from observed value + constant), edge-guard, dominance and memory-order rules over CFG facts"},
  "C13": {
@@ -95,7 +100,8 @@ CHECKS = {
           "every path handed over or released (violated by the original tree: finding F5a, replayed and fixed), list surgery and the value "
           "test run under the futex mutex, final_suspend / Task::await_suspend / the future awaitable continue exactly one party on every "
           "path, and the inline fallback resume happens exactly when the executor refused. The tests drive coroutines from one thread and "
-          "never reuse a node that wake_all is still walking. Schedule-level exactly-once and run-time executor identity are not decided.",
+          "never reuse a node that wake_all is still walking. Schedule-level exactly-once and run-time executor identity are not decided."
+          " Dependent clauses: the rules of the lower components (C08, C14) are re-evaluated on the function instances this component's own code reaches through resolved calls and reported as '<id>.D:<lower rule>' (DESIGN.md section 3, D1).",
   "note": "Trusted: clang 14 CFG; compiler-generated coroutine frames (coroutine bodies themselves are not analysed, only the awaiter/promise protocol functions).",
   "technique": "static analysis: use-after-release, resource-flow, exactly-once path counting, lock-dominance and null-correlated edge-guard rules over CFG facts"},
  "C03": {
@@ -116,7 +122,8 @@ CHECKS = {
           "element count and empty() is not answered from the head alone (all three violated by the original tree: finding F1, replayed "
           "and fixed); rebuild paths iterate through begin()/end() and size the target from size(); user-provided move/swap members "
           "transfer every field. None of the unit tests iterates, copies or reserves a set that grew from the default state. Equality "
-          "with std::unordered_set over histories is not decided. Also: a table iterator is compared only with the end() of the table it came from (R8). Also: total_size counts the table whose successor it has just examined (R2c).",
+          "with std::unordered_set over histories is not decided. Also: a table iterator is compared only with the end() of the table it came from (R8). Also: total_size counts the table whose successor it has just examined (R2c)."
+          " Dependent clauses: the rules of the lower components (C03) are re-evaluated on the function instances this component's own code reaches through resolved calls and reported as '<id>.D:<lower rule>' (DESIGN.md section 3, D1).",
   "note": "Trusted: clang 14 CFG; the fixed table's own iteration (find_first_non_empty) is not analysed.",
   "technique": "static analysis: traversal-progress, flow-sensitive provenance, special-member completeness and who-sizes-from-what rules over CFG facts"},
  "C06": {
@@ -128,7 +135,8 @@ CHECKS = {
           "the chain; user-provided move members transfer every member and data-carrying base (violated by the original tree: finding F3, "
           "replayed and fixed); constant indices agree with the capacity of the in-page arrays. A block returned with the wrong size, twice "
           "or never is visible only with an instrumented allocator over long histories. Block disjointness / alignment arithmetic / overlap "
-          "with in-page bookkeeping are numeric and explicitly not decided. Also: when a move member exchanges the block bookkeeping, the allocators release() hands blocks back to are exchanged with it (R4b). Also: release() does not read a bookkeeping array again after a block of its own group went back while the chain head still names it (R2h). Also: EnumerableThreadLocal<ExclusiveMonotonicBufferResource> moves its cache key with its storage (R4c).",
+          "with in-page bookkeeping are numeric and explicitly not decided. Also: when a move member exchanges the block bookkeeping, the allocators release() hands blocks back to are exchanged with it (R4b). Also: release() does not read a bookkeeping array again after a block of its own group went back while the chain head still names it (R2h). Also: EnumerableThreadLocal<ExclusiveMonotonicBufferResource> moves its cache key with its storage (R4c)."
+          " Dependent clauses: the rules of the lower components (C04, C14, C19) are re-evaluated on the function instances this component's own code reaches through resolved calls and reported as '<id>.D:<lower rule>' (DESIGN.md section 3, D1).",
   "note": "Trusted: clang 14 CFG; PageAllocator and std::pmr upstream are opaque; SanitizerHelper calls are value-transparent helpers.",
   "technique": "static analysis: resource-flow (acquire -> register on all paths), expression agreement with reaching definitions, ordering/dominance, "
                "special-member completeness and constant/capacity agreement over CFG facts"},
@@ -141,7 +149,8 @@ CHECKS = {
           "binds the deleter to the pool and empties the slot, the deleter pushes only to a non-null pool; per-mode queue flag pairing; "
           "Deleter moves transfer the pool pointer. The compensating paths run only when the cache is exactly full/empty under "
           "contention, and a duplicated page is silent corruption. Exact conservation inside the pointer-arithmetic callbacks under "
-          "interleavings is not decided. The queue re-size clause C01.R11 is evaluated on this component's queue instantiations (Q1).",
+          "interleavings is not decided. The queue re-size clause C01.R11 is evaluated on this component's queue instantiations (Q1)."
+          " Dependent clauses: the rules of the lower components (C01, C02) are re-evaluated on the function instances this component's own code reaches through resolved calls and reported as '<id>.D:<lower rule>' (DESIGN.md section 3, D1).",
   "note": "Trusted: clang 14 CFG; the bounded queue's compensating batch operations (C01) deliver each slot to exactly one callback.",
   "technique": "static analysis: role/sibling agreement of callbacks (resolved callees in lambda bodies), fall-off-end CFG rule, exactly-once counting, who-may-call pairing"},
  "C07": {
@@ -152,7 +161,8 @@ CHECKS = {
           "exactly when invoke refused, submit(CoroutineTask) binds the executor first and destroys the frame exactly on refusal; the "
           "sleeping global pop is woken by every global push and the non-atomic local push is reachable only behind is_running_in() "
           "through the thread-local queue. A dropped task shows only as a future that never becomes ready. That an accepted task runs "
-          "under every interleaving with steal/balance is not decided. Also: a task stolen inside the per-block steal sweep is dispatched before any further pop into the same variable, across callback invocations and after the sweep (R3e/R3f). Also: enqueue_task reports success only behind a blocking push or the success edge of a try_push (R3g). The queue re-size clause C01.R11 is evaluated on this component's queue instantiation (Q1). Also: the new-thread executor counts a task before its thread exists and un-counts it after it ran; join() returns only on an acquire observation of zero (R7).",
+          "under every interleaving with steal/balance is not decided. Also: a task stolen inside the per-block steal sweep is dispatched before any further pop into the same variable, across callback invocations and after the sweep (R3e/R3f). Also: enqueue_task reports success only behind a blocking push or the success edge of a try_push (R3g). The queue re-size clause C01.R11 is evaluated on this component's queue instantiation (Q1). Also: the new-thread executor counts a task before its thread exists and un-counts it after it ran; join() returns only on an acquire observation of zero (R7)."
+          " Dependent clauses: the rules of the lower components (C01, C02, C08, C19) are re-evaluated on the function instances this component's own code reaches through resolved calls and reported as '<id>.D:<lower rule>' (DESIGN.md section 3, D1).",
   "note": "Trusted: clang 14 CFG; std::thread; the bounded queue (C01/C02). Observation O4 (coroutine execute ignores a refused submit) is outside the quantifier and not armed.",
   "technique": "static analysis: scope-dominance, ordering, switch exhaustiveness over the enum's enumerators, edge-guard and who-may-call pairing rules over CFG facts"},
  "C16": {
@@ -162,7 +172,8 @@ CHECKS = {
           "signalling and launch a consumer exactly on fetch_add result == 0; a refused launch is rolled back by CAS to 0, -1 only after "
           "that CAS succeeded, a failed roll-back retries the launch; the non-concurrent pop has one call site. The stranded-item window "
           "(publish after the last empty poll, before the counter reset) and launch failures are interleaving- and fault-dependent. "
-          "Per-producer order and exclusivity of the consume function at run time are not decided. Also: join() returns only on a zero counter, the consumer feeds the installed function, initialize installs executor and function on every path (R2d-f); the queue's re-size clause C01.R11 on this instantiation (Q1).",
+          "Per-producer order and exclusivity of the consume function at run time are not decided. Also: join() returns only on a zero counter, the consumer feeds the installed function, initialize installs executor and function on every path (R2d-f); the queue's re-size clause C01.R11 on this instantiation (Q1)."
+          " Dependent clauses: the rules of the lower components (C01, C02) are re-evaluated on the function instances this component's own code reaches through resolved calls and reported as '<id>.D:<lower rule>' (DESIGN.md section 3, D1).",
   "note": "Trusted: clang 14 CFG; Executor::submit semantics (0 = accepted).",
   "technique": "static analysis: reaching-definitions + must-pass-through, edge-guard and memory-order rules over CFG facts"},
  "C15": {
@@ -173,7 +184,8 @@ CHECKS = {
           "count and an acquire fence separates the relaxed status reads from handing out items; a sleeper waits only after setting or "
           "seeing the waiter bit, installs observed+2^16; the waker's threshold is 2^16 and wake_all is unavoidable when a sleeper is "
           "seen; clear resets every slot word and the index. The consumer-registers-while-publisher-wakes window is never staged by the "
-          "tests and a missed wake-up is a hang. Order across blocks and consumer termination are not decided. Also: CLOSED ends the per-block slot walk for all following blocks, and the range handed out is (cursor before the advance, count) over the window [cursor, cursor+num) (R3f/R3g).",
+          "tests and a missed wake-up is a hang. Order across blocks and consumer termination are not decided. Also: CLOSED ends the per-block slot walk for all following blocks, and the range handed out is (cursor before the advance, count) over the window [cursor, cursor+num) (R3f/R3g)."
+          " Also: publish / publish_n without a CONCURRENT argument forward true, flagged ones hand the flag down (R7). Dependent clauses: the rules of the lower components (C04) are re-evaluated on the function instances this component's own code reaches through resolved calls and reported as '<id>.D:<lower rule>' (DESIGN.md section 3, D1).",
   "note": "Trusted: clang 14 CFG; kernel futex; ConcurrentVector snapshot/for_each block iteration (C04).",
   "technique": "static analysis: fence-between / ordering / edge-guard / range-agreement rules over inlined CFG facts"},
  "C19": {
@@ -184,7 +196,8 @@ CHECKS = {
           "for_each_alive (live-id enumeration); the comparer's reset only bumps the version, a stale-version write overwrites value and "
           "version, readers skip stale slots; the adder does a plain read-add-write on its own slot and reset zeroes all; move members "
           "transfer every field. Slot recycling across generations of threads / instances needs long create-destroy histories the tests do "
-          "not produce. Exactness of sums under concurrent readers is not decided. Also: reset() of the aggregates walks every slot ever used, like value() (R3a). Also: the summer's sample is (value,1) through the pair overload and the pair update is one 128-bit own-slot = own-slot + argument (R5c/R5d). Also: value, bound and live-id enumeration of one thread-id flavour use the same allocator instance (R3c).",
+          "not produce. Exactness of sums under concurrent readers is not decided. Also: reset() of the aggregates walks every slot ever used, like value() (R3a). Also: the summer's sample is (value,1) through the pair overload and the pair update is one 128-bit own-slot = own-slot + argument (R5c/R5d). Also: value, bound and live-id enumeration of one thread-id flavour use the same allocator instance (R3c)."
+          " Dependent clauses: the rules of the lower components (C04, C14) are re-evaluated on the function instances this component's own code reaches through resolved calls and reported as '<id>.D:<lower rule>' (DESIGN.md section 3, D1).",
   "note": "Trusted: clang 14 CFG; ConcurrentVector (C04) and IdAllocator (C14).",
   "technique": "static analysis: ordering/dominance, resolved-callee (who sums over what), edge-guard and special-member completeness rules over CFG facts"},
  "C20": {
@@ -196,7 +209,8 @@ CHECKS = {
           "the writer thread can exit after a pop only through the write-out of that pop's entries, the size-0 marker is what the consumer "
           "tests, close pushes it before join, the destructor closes. Page conservation across the asynchronous hand-off is a property of "
           "all interleavings and of entry lengths no test enumerates. The inline/page-table boundary arithmetic, per-thread order in the "
-          "file and partial writev are not decided; observation O1 (close()'s sleeping push vs. the non-waking consumer) is printed as a NOTE. Also: begin() resets every field the streaming methods write, end() syncs, and a file's destination index is the position its destination is appended at (R2i/R2j/R4d). The queue re-size clause C01.R11 is evaluated on this component's queue instantiation (Q1).",
+          "file and partial writev are not decided; observation O1 (close()'s sleeping push vs. the non-waking consumer) is printed as a NOTE. Also: begin() resets every field the streaming methods write, end() syncs, and a file's destination index is the position its destination is appended at (R2i/R2j/R4d). The queue re-size clause C01.R11 is evaluated on this component's queue instantiation (Q1)."
+          " Also: every begin() of the asynchronous stream's buffer is preceded by binding the buffer to the appender's current page allocator (R2k). Dependent clauses: the rules of the lower components (C01, C02, C17) are re-evaluated on the function instances this component's own code reaches through resolved calls and reported as '<id>.D:<lower rule>' (DESIGN.md section 3, D1).",
   "note": "Trusted: clang 14 CFG; writev/FileObject opaque; PageAllocator opaque; the appender queue (C01/C02).",
   "technique": "static analysis: resource-flow, must-pass-through, exactly-once linking and ordering rules over CFG facts"},
  "C11": {
@@ -231,7 +245,8 @@ CHECKS = {
           "(finding F8: emplace_back repaired, emplace/insert/resize(value) listed as known findings); reconstruct of a clearable "
           "type clears. The boundary combinations of size/constructed/capacity are reached only by operation sequences no test "
           "enumerates. Equivalence with std::vector/std::string, the index arithmetic of the shifting loops and zero growth at "
-          "convergence are not decided. Also: the walk collecting element capacities of repeated string/message fields is bounded by size()+ClearedCount() (R4d).",
+          "convergence are not decided. Also: the walk collecting element capacities of repeated string/message fields is bounded by size()+ClearedCount() (R4d)."
+          ' Also: operator= / assign append only behind a reset of the size (clear, delegation to another assign, swap) on every path (R7).',
   "note": "Trusted: clang 14 CFG and template instantiation; the monotonic allocator (C06); protobuf message traits are not instantiated "
           "(they need a generated message type).",
   "technique": "static analysis: who-may-write / monotone-update rules, construct-increment pairing, edge-guard classification against the constructed boundary, ordering (update < release < recreate), sibling agreement and argument-use-after-relocation reachability over CFG facts of instantiated templates"},
@@ -245,7 +260,8 @@ CHECKS = {
           "exactly one on every path; vertex closures add one pending vertex and subtract exactly once; release notifies successors only "
           "behind the releasing seal CAS, ready() acquires, bind counts before and rolls back exactly on a lost CAS; every field a run "
           "writes is reset. The orderings of activate/condition-ready/target-ready are produced by the scheduler, never by the tests. The "
-          "value-level correctness of the +1/+2 protocol over all orderings and equality with a reference evaluation are not decided. Also: reset() restores every run-written field on every path (R6c).",
+          "value-level correctness of the +1/+2 protocol over all orderings and equality with a reference evaluation are not decided. Also: reset() restores every run-written field on every path (R6c)."
+          " Also: every store to GraphDependency::_ready that is not constant false is a conjunction with, or sits behind the true edge of, established() / check_established() (R7). Dependent clauses: the rules of the lower components (C08) are re-evaluated on the function instances this component's own code reaches through resolved calls and reported as '<id>.D:<lower rule>' (DESIGN.md section 3, D1).",
   "note": "Trusted: clang 14 CFG; GraphExecutor::run and processors are virtual/opaque; builder-time configuration is outside the rules.",
   "technique": "static analysis: flow-sensitive edge-guard (equality on RMW results), exactly-once counting, who-may-call and reset-completeness rules over CFG facts"},
 }
